@@ -61,7 +61,7 @@ def tlc_only(label, module, constants, invariants=(), properties=(), view='View'
                        deadlock=deadlock)
     return tlc.run(module, cfg, workers=workers, simulate=simulate, depth=depth,
                    seed=(seed if simulate is not None else None), timeout=timeout, heap=heap,
-                   budget_ok=budget_ok and not emit)
+                   budget_ok=budget_ok and (not emit or simulate is not None))
 
 
 def account(ctx, label, module, constants, res, emit=False, simulate=False,
